@@ -188,7 +188,7 @@ def emit_program(name, inputs, outputs, ns='Gen'):
         ty = 'K' if mode == 'field' else 'Float'
         binders = []
         if mode == 'field':
-            binders.append("{K : Type} [Field K]" + (" [LinearOrder K]" if 'order' in uses else ""))
+            binders.append("{K : Type} [Field K] [LinearOrder K]")  # uniform binders: signatures must be stable
             if 'sqrt' in uses:
                 binders.append("(sqrt : K → K)")
             if 'pw' in uses:
